@@ -57,26 +57,39 @@ class ResponseModel:
         self.status_f, self.headers_f = self.status_path[-1], self.headers_path[-1]
         self.status_key = tuple("." + x for x in self.status_path)
         self.headers_key = tuple("." + x for x in self.headers_path)
-        self.len_f = [n for n, t in self.fields.items() if t == "std::option::Option<usize>"]
-        self.reader_f = [n for n, t in self.fields.items() if t == "R"][0]
-        # data_length vs chunked_threshold: the one raw_print matches on together with the coding is the declared length; bind by name order
-        # robustly: the field that the chooser receives by reference as its `entity length`
+        self.len_paths = shared.find_slot_paths(facts, RESP, r"^std::option::Option<usize>$")
+        self.len_f = [p[-1] for p in self.len_paths]
+        self.reader_path = one(r"^R$", "body reader")
+        self.reader_f = self.reader_path[-1]
+        self.reader_key = tuple("." + x for x in self.reader_path)
+        # data_length vs chunked_threshold: the declared length is the one the chooser receives as its `entity length`
         self.dlen_f = None
         for bb, t in self.f.calls():
             if call_name(t) == self.chooser.id:
                 for a in t["args"]:
-                    fs = origin_fields(self.f.origin(a)) & set(self.len_f)
-                    if fs and self.f.origin(a)[0] == "ref":
+                    o = self.f.origin(a)
+                    fs = origin_fields(o) & set(self.len_f)
+                    if fs and ("Option<usize>" in (self.f.local_ty(op_local(a)) if op_local(a) is not None else "")):
                         self.dlen_f = sorted(fs)[0]
         if self.dlen_f is None:
+            if not self.len_f:
+                raise CheckerError("response rules: declared-length field of Response not found")
             self.dlen_f = "data_length" if "data_length" in self.len_f else self.len_f[0]
+        self.dlen_path = [p for p in self.len_paths if p[-1] == self.dlen_f][0]
+        self.dlen_key = tuple("." + x for x in self.dlen_path)
+        self.thr_paths = [p for p in self.len_paths if p != self.dlen_path]
+
+    def at(self, fields, path):
+        """value at a field path inside the field dict of a Response aggregate term"""
+        import framing_rules as FRM
+        return FRM.term_at(("agg", RESP, "Response", fields), path)
 
     def run(self, status, dlen, dns, te, upgrade):
         f = self.f
         st = symex.Sym(f)
         st.write_key((1,) + self.status_key, ("agg", STATUS, "StatusCode", {"0": ("const", status, "%d_u16" % status, None)}))
-        st.write_key((1, "." + self.dlen_f), ("none",) if dlen is None else ("some", ("const", dlen, "%d_usize" % dlen, None)))
-        st.write_key((1, "." + self.reader_f), BODY)
+        st.write_key((1,) + self.dlen_key, ("none",) if dlen is None else ("some", ("const", dlen, "%d_usize" % dlen, None)))
+        st.write_key((1,) + self.reader_key, BODY)
         st.write_key((2,), OUT)
         st.write_key((5,), ("const", dns, str(dns).lower(), None))
         st.write_key((6,), ("none",) if not upgrade else ("some", ("sym", "protocol")))
